@@ -21,13 +21,35 @@ ASSUMPTIONS = ["symbolic links in parents of the configured directories are exer
                "a relative configuration denotes the directories relative to the working directory at construction"]
 
 
+# results whose stored form is an empty file (the empty string) or nearly so, kept next to the generated pipeline
+EMPTY_RESULTS = """
+def e_str():
+    log('e_str')
+    return ''
+
+
+def e_none():
+    log('e_none')
+    return None
+
+
+def e_list():
+    log('e_list')
+    return []
+
+
+def f0x():
+    return term('f0x', f0(), repr(dds.keep('/c16_empty/s', e_str)), repr(dds.keep('/c16_empty/n', e_none)), repr(dds.keep('/c16_empty/l', e_list)))
+"""
+
+
 def run(ctx):
     res = common.Result()
     rng = ctx["rng"]
     thorough = ctx["tier"] == "thorough"
     common.import_dds()
     base = os.path.realpath(tempfile.mkdtemp(prefix="ddsverif_c16_"))
-    entry = {"kind": "eval", "fun": "f0"}
+    entry = {"kind": "eval", "fun": "f0x"}
     reqs, meta = [], []
     try:
         styles = ["absolute", "relative", "trailing_slash", "nested_new", "symlinked_parent", "relative_dotdot"]
@@ -54,7 +76,7 @@ def run(ctx):
         ws = os.path.join(base, "ws")
         os.makedirs(ws)
         with open(os.path.join(ws, "c16w.py"), "w") as fh:
-            fh.write(progs.render_world(w, "c16e"))
+            fh.write(progs.render_world(w, "c16e") + EMPTY_RESULTS)
         with open(os.path.join(ws, "c16e.py"), "w") as fh:
             fh.write(progs.render_ext(w))
         ref = pipeline.ref_worker()
@@ -62,7 +84,7 @@ def run(ctx):
         ref.call(cmd="world", dir=ws, module="c16w", extmod="c16e")
         rr = ref.call(cmd="run", entry=entry)
         want, want_paths = rr["value"], rr["refpaths"]
-        kept = {fn for (_, fn) in progs.kept_paths(w)}
+        kept = {fn for (_, fn) in progs.kept_paths(w)} | {"e_str", "e_none", "e_list"}
         for ci, (si, sd, cache) in enumerate(combos):
             root = os.path.join(base, "c%d" % ci)
             cwd1, cwd2 = os.path.join(root, "cwd1"), os.path.join(root, "cwd2")
